@@ -26,7 +26,7 @@ def div_pair(rng, w, n, signed):
     W = w * n
     M = 1 << W
     B = 1 << w
-    c = rng.randrange(12)
+    c = rng.choice([0, 1, 2, 3, 3, 3, 4, 5, 6, 7, 8, 9, 10, 11])
     if c == 0:
         t, a, b = pair(rng, w, n)
         return "pair:" + t, a, b
@@ -37,6 +37,14 @@ def div_pair(rng, w, n, signed):
         return "min/-1", M >> 1, rng.choice([M - 1, 1, M - 2, 2, M >> 1])
     if c == 3:
         _, a = value(rng, w, n)
+        if rng.random() < 0.6:
+            # single-digit divisors of every bit length (half-digit fast paths, normalisation shifts)
+            bl = rng.randrange(1, w + 1)
+            d = rng.choice([(1 << bl) - 1, 1 << (bl - 1), (1 << (bl - 1)) + 1, (1 << (bl - 1)) | rng.randrange(1 << (bl - 1))])
+            if rng.random() < 0.5:
+                # dividend with extreme digits so that the running remainder gets large
+                a = sum(rng.choice([B - 1, B - 2, d - 1 if d > 1 else 0, rng.randrange(B)]) << (w * i) for i in range(n))
+            return "by-one-digit-bitlen", a, max(1, d)
         return "by-one-digit", a, rng.choice([1, 2, 3, B - 1, B // 2, 10, rng.randrange(1, B)])
     d = divisor(rng, w, n)
     if c <= 8:
